@@ -8,7 +8,7 @@
 //! For each type T of a fixed list (Scrypto flavour: `scrypto_encode/decode`; manifest flavour:
 //! `manifest_encode/decode`, validated against the Scrypto schema through `ManifestCustomExtension`):
 //!  * S_T = `generate_full_schema_from_single_type::<T, ScryptoCustomSchema>()`;
-//!  * P = `schema_directed(S_T)` (see schemagen.rs) at the smallest depth >= 4 at which the type bottoms out, +1 (quick) / +3 (thorough);
+//!  * P = `schema_directed(S_T)` (see schemagen.rs) at the smallest depth >= 4 at which the type bottoms out, +1 (quick) / +4 (thorough);
 //!  * (1) for p in P: if the typed decoder accepts p with value v, then the payload validator must accept p,
 //!        `encode(v)` must validate and `decode(encode(v)) == v`;
 //!  * (2) for every single-point mutation m of (a prefix of) P over a 14-byte alphabet of structurally significant
@@ -312,7 +312,7 @@ pub fn run(ctx: Ctx) -> ! {
         MIN.flush(&ctx);
         ctx.finish(Level::Exploration, "replay", 0, false, Map::new(), &[]);
     }
-    let budget = ctx.pick(Budget { extra_depth: 1, node_cap: 60, root_cap: 1500, mutate_first: 25, mutate_max_len: 200 }, Budget { extra_depth: 3, node_cap: 80, root_cap: 20_000, mutate_first: 400, mutate_max_len: 400 });
+    let budget = ctx.pick(Budget { extra_depth: 1, node_cap: 60, root_cap: 1500, mutate_first: 25, mutate_max_len: 200 }, Budget { extra_depth: 4, node_cap: 150, root_cap: 100_000, mutate_first: 20_000, mutate_max_len: 1500 });
     par_range(&ctx, jobs.len() as u64, 1, |i, l| {
         let (_name, job) = &jobs[i as usize];
         job(budget, l);
